@@ -681,3 +681,60 @@ def run(prop: str, repo: str, seed: int) -> dict:
         },
         "selftest_failures": failures,
     }
+
+
+# ------------------------------------------------------------------ confirmed seeded changes (kept under /verif/seeded)
+def patched_sources(patch: str, repo: str) -> Optional[dict]:
+    """{relpath: source} of the python files a unified diff touches, with the diff applied to a scratch copy of just
+    those files (nothing under ``repo`` is modified); None when the diff no longer applies to the current tree"""
+    import re
+    import shutil
+    import subprocess
+    import tempfile
+    files = re.findall(r"^\+\+\+ b/(\S+)", open(patch).read(), re.M)
+    tmp = tempfile.mkdtemp(prefix="framelint_seed_")
+    try:
+        for f in files:
+            os.makedirs(os.path.dirname(os.path.join(tmp, f)) or tmp, exist_ok=True)
+            if os.path.exists(os.path.join(repo, f)):
+                shutil.copy(os.path.join(repo, f), os.path.join(tmp, f))
+        r = subprocess.run(["patch", "-p1", "-s", "-f", "-d", tmp, "-i", patch], capture_output=True, text=True)
+        if r.returncode != 0:
+            return None
+        return {f: open(os.path.join(tmp, f)).read() for f in files if f.endswith(".py")}
+    finally:
+        shutil.rmtree(tmp, ignore_errors=True)
+
+
+def _run_seed(args) -> tuple:
+    prop, repo, sid, base = args
+    import sys
+    sys.setrecursionlimit(20000)
+    try:
+        ov = patched_sources(os.path.join(core.VERIF_DIR, "seeded", sid, "patch.diff"), repo)
+        if ov is None:
+            return sid, None, "patch does not apply to this tree"
+        ctx, err = core.run_property(prop, "quick", repo, overrides=ov)
+        return sid, sorted({k.split("|")[1] for k in _finding_keys(ctx) - set(base)}), err
+    except Exception as e:   # pragma: no cover
+        return sid, [], f"internal: {type(e).__name__}: {e}"
+
+
+def run_seeds(prop: str, repo: str, base_keys: Optional[set] = None) -> dict:
+    """every confirmed seeded change of this property, applied in memory to the current tree, must be reported"""
+    d = os.path.join(core.VERIF_DIR, "seeded")
+    ids = sorted(x for x in (os.listdir(d) if os.path.isdir(d) else []) if x.split("-")[0] == prop and os.path.exists(os.path.join(d, x, "patch.diff")))
+    if base_keys is None:
+        bctx, _ = core.run_property(prop, "quick", repo)
+        base_keys = _finding_keys(bctx)
+    out, missed = {}, []
+    with ProcessPoolExecutor(max_workers=min(WORKERS, max(1, len(ids)))) as ex:
+        for sid, rules_, err in ex.map(_run_seed, [(prop, repo, s, sorted(base_keys)) for s in ids]):
+            if rules_ is None:
+                out[sid] = "not applicable: " + str(err)
+            elif rules_:
+                out[sid] = "reported by " + ", ".join(rules_)
+            else:
+                out[sid] = "MISSED" + (f" ({err})" if err else "")
+                missed.append(sid)
+    return {"seeded_changes": out, "seeded_missed": missed}
